@@ -241,6 +241,38 @@ def descents(ctx: Ctx, f: Func) -> List[ast.Call]:
     return sorted(out, key=lambda c: c.lineno)
 
 
+def _neighbour_scan(f: Func) -> Optional[ast.AST]:
+    """`for (p, q) in zip(xs, xs[1:])` (or xs[i] / xs[i + 1]) with a `startswith` test, where xs is `sorted(..)` of whole
+    path strings (no key, or a key that does not split the path): the loop / comprehension node, else None."""
+    sorted_plain = False
+    for n in f.own_nodes():
+        if isinstance(n, ast.Call) and isinstance(n.func, ast.Name) and n.func.id == "sorted":
+            key = [k.value for k in n.keywords if k.arg == "key"]
+            if not key or not any(isinstance(x, ast.Attribute) and x.attr in ("split", "parts") or (isinstance(x, ast.Name) and "split" in x.id) for x in ast.walk(key[0])):
+                sorted_plain = True
+        if isinstance(n, ast.Call) and isinstance(n.func, ast.Attribute) and n.func.attr == "sort" and not n.keywords:
+            sorted_plain = True
+    if not sorted_plain:
+        return None
+    has_prefix_test = any(isinstance(n, ast.Call) and isinstance(n.func, ast.Attribute) and n.func.attr == "startswith" for n in f.own_nodes())
+    if not has_prefix_test:
+        return None
+    for n in f.own_nodes():
+        it = None
+        if isinstance(n, ast.For):
+            it = n.iter
+        elif isinstance(n, ast.comprehension):
+            it = n.iter
+        if isinstance(it, ast.Call) and isinstance(it.func, ast.Name) and it.func.id == "zip" and len(it.args) == 2:
+            a, b = it.args
+            if isinstance(a, ast.Name) and isinstance(b, ast.Subscript) and isinstance(b.value, ast.Name) and b.value.id == a.id and isinstance(b.slice, ast.Slice) \
+                    and isinstance(b.slice.lower, ast.Constant) and b.slice.lower.value == 1:
+                return n if isinstance(n, ast.For) else it
+        if isinstance(n, ast.Subscript) and isinstance(n.slice, ast.BinOp) and isinstance(n.slice.op, ast.Add) and isinstance(n.slice.right, ast.Constant) and n.slice.right.value == 1:
+            return n
+    return None
+
+
 def run(ctx: Ctx) -> None:
     rep = ctx.report
     prog = ctx.prog
@@ -275,12 +307,29 @@ def run(ctx: Ctx) -> None:
         if isinstance(n, ast.Call) and (prog.dotted(detector, n.func) or "").endswith("itertools.groupby")
     )
     if in_detector == 0:
-        rep.unknown("C11.R1", detector.qname, "overlap detector does not use groupby: grouping idiom not recognised", detector.loc())
+        w = _neighbour_scan(detector)
+        if w is not None:
+            # a known-wrong idiom, decided as such: one pass over the string-sorted paths comparing neighbours
+            n_gb += 1
+            rep.bad("C11.R1", detector.qname, "the overlap detector groups each path with all of its sub-paths", detector.loc(w),
+                    [f"{detector.loc(w)}: `{unparse(w, 70)}` compares each path with its successor in plain string order",
+                     "string order does not keep a path next to its sub-paths: every character below '/' (space ! \" # $ % & ' ( ) * + , - .) sorts a sibling in between",
+                     "counterexample: sorted(['/model', '/model/weights', '/model.meta']) == ['/model', '/model.meta', '/model/weights']: '/model' is a prefix of "
+                     "'/model/weights' and no neighbour pair shows it: the evaluation is not rejected"],
+                    "neighbour-scan", what="overlapping paths separated by a sibling that sorts below '/' are not detected")
+        else:
+            rep.unknown("C11.R1", detector.qname, "overlap detector does not use groupby: grouping idiom not recognised", detector.loc())
     rep.floor("C11.R1", n_gb, 1)
 
     # ---- R6: the overlap test covers the complete path map (root path of dds.keep included) ----
     rep.rule("C11.R6", "the overlap detector is applied to the map that is committed (all_store_paths of the interactions with the root path attached)")
     _overlap_input(ctx, top, detector)
+
+    # ---- R8: both passes analyse the program as it is now ----
+    from .c03 import global_cache_rule
+    rep.rule("C11.R8", "as C03.R3(i): no process-wide cache whose entries are returned as analysis results (resolved functions, interactions) has a writer: "
+                       "both passes must analyse the functions that python will run, not those of an earlier evaluation")
+    global_cache_rule(ctx, "C11.R8")
 
     # ---- R7: both detections rely on the same local-variable classification ----
     from . import visitors
